@@ -213,6 +213,21 @@ pub assume_specification[ GraphColoredVertices::minus_colors ](a: &GraphColoredV
     ensures forall|p: Pt| #[trigger] gv(&r).contains(p) <==> gv(a).contains(p) && !gvc(c).contains(p.c);
 pub assume_specification[ GraphColoredVertices::intersect_colors ](a: &GraphColoredVertices, c: &GraphColors) -> (r: GraphColoredVertices)
     ensures forall|p: Pt| #[trigger] gv(&r).contains(p) <==> gv(a).contains(p) && gvc(c).contains(p.c);
+// set algebra of the projections (biodivine_std::traits::Set for GraphVertices / GraphColors: the usual set operations)
+pub assume_specification[ GraphVertices::union ](a: &GraphVertices, b: &GraphVertices) -> (r: GraphVertices) ensures gvv(&r) == gvv(a).union(gvv(b));
+pub assume_specification[ GraphVertices::intersect ](a: &GraphVertices, b: &GraphVertices) -> (r: GraphVertices) ensures gvv(&r) == gvv(a).intersect(gvv(b));
+pub assume_specification[ GraphVertices::minus ](a: &GraphVertices, b: &GraphVertices) -> (r: GraphVertices) ensures gvv(&r) == gvv(a).difference(gvv(b));
+pub assume_specification[ GraphVertices::is_empty ](a: &GraphVertices) -> (r: bool) ensures r <==> forall|s: Seq<bool>| !gvv(a).contains(s);
+pub assume_specification[ GraphVertices::is_subset ](a: &GraphVertices, b: &GraphVertices) -> (r: bool) ensures r <==> gvv(a).subset_of(gvv(b));
+pub assume_specification[ GraphVertices::approx_cardinality ](a: &GraphVertices) -> (r: f64);
+pub assume_specification[ <GraphVertices as Clone>::clone ](a: &GraphVertices) -> (r: GraphVertices) ensures gvv(&r) == gvv(a);
+pub assume_specification[ GraphColors::union ](a: &GraphColors, b: &GraphColors) -> (r: GraphColors) ensures gvc(&r) == gvc(a).union(gvc(b));
+pub assume_specification[ GraphColors::intersect ](a: &GraphColors, b: &GraphColors) -> (r: GraphColors) ensures gvc(&r) == gvc(a).intersect(gvc(b));
+pub assume_specification[ GraphColors::minus ](a: &GraphColors, b: &GraphColors) -> (r: GraphColors) ensures gvc(&r) == gvc(a).difference(gvc(b));
+pub assume_specification[ GraphColors::is_empty ](a: &GraphColors) -> (r: bool) ensures r <==> forall|c: int| !gvc(a).contains(c);
+pub assume_specification[ GraphColors::is_subset ](a: &GraphColors, b: &GraphColors) -> (r: bool) ensures r <==> gvc(a).subset_of(gvc(b));
+pub assume_specification[ GraphColors::approx_cardinality ](a: &GraphColors) -> (r: f64);
+pub assume_specification[ <GraphColors as Clone>::clone ](a: &GraphColors) -> (r: GraphColors) ensures gvc(&r) == gvc(a);
 pub assume_specification[ SymbolicContext::mk_constant ](c: &SymbolicContext, v: bool) -> (r: Bdd)
     ensures forall|p: Pt| #[trigger] bv(&r).contains(p) <==> v && shaped(p);
 // API without a contract: calls are accepted, nothing is known about the result
